@@ -49,6 +49,9 @@ struct Scn {
     /// the requests are issued one after the other by one task, and the requester's generator draws the SAME flow id
     /// for each (the id is free again once the previous request has resolved); the responder answers each at once
     sequential_same_id: bool,
+    /// (with `sequential_same_id`, two requests) the responder answers the first request with `reply(false)` but KEEPS the
+    /// request object; it lets go of it only when the second request (same flow id) has been shown to it, then accepts that one
+    reject_hold: bool,
     /// the responder application has one task per expected request waiting in `next_bind_request` at the same time
     /// (each takes one request and answers it at once) instead of one task that collects them all
     many_responders: bool,
@@ -93,8 +96,31 @@ fn exec(sc: &Scn, render: bool) -> RunOutput {
             }
             obs.borrow_mut().end("bindseq.a");
         });
-        // every request is answered as soon as it is seen
-        w.spawn_bind_responder(1, 0, vec![], vec![sc.answers[0]]);
+        if sc.reject_hold {
+            let mux = w.mux(1);
+            let obs = w.obs.clone();
+            obs.borrow_mut().begin("bindresp.hold.b");
+            w.sim.spawn("bindresp.hold.b", crate::apps::group_of(1), async move {
+                let seen = |obs: &crate::apps::ObsRef, req: &penguin_mux::BindRequest<'static>| obs.borrow_mut().ev(Ev::BindSeen { side: 1, flow: req.flow_id(), btype: req.bind_type() as u8, host: req.host().to_vec(), port: req.port() });
+                let Ok(first) = mux.next_bind_request().await else { return };
+                seen(&obs, &first);
+                let flow = first.flow_id();
+                let _ = first.reply(false);
+                obs.borrow_mut().ev(Ev::BindAnswered { side: 1, flow, how: "reject" });
+                let Ok(second) = mux.next_bind_request().await else { return };
+                seen(&obs, &second);
+                // only now does the application let go of the request it answered long ago
+                drop(first);
+                let flow = second.flow_id();
+                let _ = second.reply(true);
+                obs.borrow_mut().ev(Ev::BindAnswered { side: 1, flow, how: "accept" });
+                drop(second);
+                obs.borrow_mut().end("bindresp.hold.b");
+            });
+        } else {
+            // every request is answered as soon as it is seen
+            w.spawn_bind_responder(1, 0, vec![], vec![sc.answers[0]]);
+        }
     } else {
         for (i, r) in sc.reqs.iter().enumerate() {
             w.spawn_bind_requester(0, i as u32, r.btype, r.host.clone(), r.port);
@@ -261,7 +287,10 @@ fn exec(sc: &Scn, render: bool) -> RunOutput {
             continue;
         };
         let shown = seen.iter().any(|(f, ..)| *f == fid);
-        let how = obs.events.iter().find_map(|e| if let Ev::BindAnswered { side: 1, flow, how } = e { (*flow == fid).then_some(*how) } else { None });
+        // (requests issued one after the other may use the same flow id: the k-th decision taken on an id belongs to the
+        // k-th request that used it)
+        let prior = ids[..i].iter().filter(|x| **x == Some(fid)).count();
+        let how = obs.events.iter().filter_map(|e| if let Ev::BindAnswered { side: 1, flow, how } = e { (*flow == fid).then_some(*how) } else { None }).nth(prior);
         if sc.buf == 0 {
             wit |= W_DISABLED;
             if fault.is_none() && res != Some(Ok(false)) {
@@ -415,7 +444,7 @@ pub fn run(args: &Args) -> Report {
     let mut cases = Vec::new();
     let mut add = |sc: Scn| {
         let label = format!(
-            "{} request(s) answers={:?} order={:?} bind_buffer={} traffic={} both_sides={} faults={} id_collision_with_peer_open={} sequential_same_id={}{}",
+            "{} request(s) answers={:?} order={:?} bind_buffer={} traffic={} both_sides={} faults={} id_collision_with_peer_open={} sequential_same_id={} reject_hold={}{}",
             sc.reqs.len(),
             sc.answers,
             sc.order,
@@ -425,6 +454,7 @@ pub fn run(args: &Args) -> Report {
             sc.faults,
             sc.collide,
             sc.sequential_same_id,
+            sc.reject_hold,
             if sc.many_responders { " one responder task per request, all waiting in next_bind_request at the same time".to_string() } else if sc.draws.is_empty() { String::new() } else { format!(" requester's flow-id draws {:?}", sc.draws) }
         );
         cases.push(Case { try_unbounded: false, max_k: u32::MAX, label, exec: Box::new(move |r| exec(&sc, r)) });
@@ -441,25 +471,30 @@ pub fn run(args: &Args) -> Report {
                     if !thorough && n == 3 && buf == 4 && code % 3 != 0 {
                         continue;
                     }
-                    add(Scn { reqs: pool[..n].to_vec(), answers: answers.clone(), order: order.clone(), buf, with_traffic: n == 2 && code % 5 == 0, both_sides: thorough && n == 2 && code % 7 == 0, faults: false, collide: false, sequential_same_id: false, many_responders: false, draws: &[] });
+                    add(Scn { reqs: pool[..n].to_vec(), answers: answers.clone(), order: order.clone(), buf, with_traffic: n == 2 && code % 5 == 0, both_sides: thorough && n == 2 && code % 7 == 0, faults: false, collide: false, sequential_same_id: false, reject_hold: false, many_responders: false, draws: &[] });
                 }
             }
             if n <= 2 {
-                add(Scn { reqs: pool[..n].to_vec(), answers: answers.clone(), order: (0..n).collect(), buf: 1, with_traffic: false, both_sides: false, faults: false, collide: true, sequential_same_id: false, many_responders: false, draws: &[] });
-                add(Scn { reqs: pool[..n].to_vec(), answers: answers.clone(), order: (0..n).collect(), buf: 1, with_traffic: false, both_sides: false, faults: true, collide: false, sequential_same_id: false, many_responders: false, draws: &[] });
+                add(Scn { reqs: pool[..n].to_vec(), answers: answers.clone(), order: (0..n).collect(), buf: 1, with_traffic: false, both_sides: false, faults: false, collide: true, sequential_same_id: false, reject_hold: false, many_responders: false, draws: &[] });
+                add(Scn { reqs: pool[..n].to_vec(), answers: answers.clone(), order: (0..n).collect(), buf: 1, with_traffic: false, both_sides: false, faults: true, collide: false, sequential_same_id: false, reject_hold: false, many_responders: false, draws: &[] });
             }
         }
         // one task issues the requests one after the other and draws the same flow id every time
         if n >= 2 {
             for a in [BindAnswer::Accept, BindAnswer::Reject, BindAnswer::DropIt] {
-                add(Scn { reqs: pool[..n].to_vec(), answers: vec![a; n], order: (0..n).collect(), buf: 1, with_traffic: false, both_sides: false, faults: false, collide: false, sequential_same_id: true, many_responders: false, draws: &[] });
+                add(Scn { reqs: pool[..n].to_vec(), answers: vec![a; n], order: (0..n).collect(), buf: 1, with_traffic: false, both_sides: false, faults: false, collide: false, sequential_same_id: true, reject_hold: false, many_responders: false, draws: &[] });
             }
+        }
+        // ... and the responder answers the first one `false`, holds on to the request object, and drops it only when the
+        // second request has reached it (which it accepts)
+        if n == 2 {
+            add(Scn { reqs: pool[..n].to_vec(), answers: vec![BindAnswer::Reject, BindAnswer::Accept], order: (0..n).collect(), buf: 1, with_traffic: false, both_sides: false, faults: false, collide: false, sequential_same_id: true, reject_hold: true, many_responders: false, draws: &[] });
         }
         // a pool of responder tasks, all waiting in next_bind_request at the same time (uniform answers)
         if n >= 2 {
             for a in [BindAnswer::Accept, BindAnswer::Reject] {
                 for buf in [1usize, 4] {
-                    add(Scn { reqs: pool[..n].to_vec(), answers: vec![a; n], order: (0..n).collect(), buf, with_traffic: false, both_sides: false, faults: false, collide: false, sequential_same_id: false, many_responders: true, draws: &[] });
+                    add(Scn { reqs: pool[..n].to_vec(), answers: vec![a; n], order: (0..n).collect(), buf, with_traffic: false, both_sides: false, faults: false, collide: false, sequential_same_id: false, reject_hold: false, many_responders: true, draws: &[] });
                 }
             }
         }
@@ -468,13 +503,13 @@ pub fn run(args: &Args) -> Report {
             for draws in [&[5u32, 5, 6][..], &[5, 0, 5, 6], &[0, 5, 0, 0, 5, 7]] {
                 for answers in [[BindAnswer::Accept, BindAnswer::Reject], [BindAnswer::Reject, BindAnswer::Accept], [BindAnswer::Never, BindAnswer::Accept], [BindAnswer::Accept, BindAnswer::Accept]] {
                     for order in [vec![0usize, 1], vec![1, 0]] {
-                        add(Scn { reqs: pool[..n].to_vec(), answers: answers.to_vec(), order, buf: 4, with_traffic: false, both_sides: false, faults: false, collide: false, sequential_same_id: false, many_responders: false, draws });
+                        add(Scn { reqs: pool[..n].to_vec(), answers: answers.to_vec(), order, buf: 4, with_traffic: false, both_sides: false, faults: false, collide: false, sequential_same_id: false, reject_hold: false, many_responders: false, draws });
                     }
                 }
             }
         }
         // binds disabled on the responder
-        add(Scn { reqs: pool[..n].to_vec(), answers: vec![BindAnswer::Accept; n], order: (0..n).collect(), buf: 0, with_traffic: n == 2, both_sides: false, faults: false, collide: false, sequential_same_id: false, many_responders: false, draws: &[] });
+        add(Scn { reqs: pool[..n].to_vec(), answers: vec![BindAnswer::Accept; n], order: (0..n).collect(), buf: 0, with_traffic: n == 2, both_sides: false, faults: false, collide: false, sequential_same_id: false, reject_hold: false, many_responders: false, draws: &[] });
     }
     let plan = Plan {
         ks: if thorough { vec![0, 1, 2, 3, 4, 5] } else { vec![0, 1, 2] },
